@@ -25,6 +25,7 @@ HARNESS = {
     '/repo/internal/db/zz_c03_timetravel_test.go': f'{V}/harness/db/zz_c03_timetravel_test.go',
     '/repo/internal/db/zz_c07_index_test.go': f'{V}/harness/db/zz_c07_index_test.go',
     '/repo/internal/db/zz_c09_relation_test.go': f'{V}/harness/db/zz_c09_relation_test.go',
+    '/repo/internal/db/zz_c14_restart_test.go': f'{V}/harness/db/zz_c14_restart_test.go',
 }
 
 def overlay():
@@ -33,6 +34,18 @@ def overlay():
         o['Replace'].update(json.load(open(os.environ['GOVC_OVERLAY']))['Replace'])
     p = f'{work}/overlay-{prop}-{os.getpid()}.json'
     json.dump(o, open(p, 'w'))
+    return p
+
+def gotest_pkg(run, pkg, files, timeout):
+    o = {'Replace': dict(files)}
+    if os.environ.get('GOVC_OVERLAY'):
+        o['Replace'].update(json.load(open(os.environ['GOVC_OVERLAY']))['Replace'])
+    ovp = f'{work}/overlay-{prop}-{os.getpid()}-pkg.json'
+    json.dump(o, open(ovp, 'w'))
+    e = dict(os.environ, GOFLAGS='-mod=mod', GOPROXY='off')
+    p = subprocess.run(['go', 'test', '-overlay', ovp, '-vet=off', '-count=1', '-timeout', f'{timeout}s', '-run', run, '-v', pkg],
+                       cwd='/repo', env=e, capture_output=True, text=True)
+    os.remove(ovp)
     return p
 
 def gotest(run, env, timeout):
@@ -225,6 +238,49 @@ if prop == 'C09':
                    'replay_cmd': "go test -overlay <harness overlay> -vet=off -run '^TestGovcC09Relations$' ./internal/db"}, open(rp, 'w'), indent=1)
         lines.append(f'VIOLATION property={prop} replay={rp}')
         violations.append(('relation differential', fresh[:3]))
+
+if prop == 'C14':
+    summary['function'] = '(*DB).initialize / loadSchema / collection and index caches / sequences, through a second database object opened over the same store (go test -overlay on real stores)'
+    env = {'VERIF_BOUND_DIRECTED': 'full'} if tier == 'thorough' else {}
+    nh = 7 if tier == 'thorough' else 5
+    bound = f'{nh} histories of 7-9 schema / index / document operations (add schema, patch schema, create and drop indexes, create, update, increment, delete); the database object is replaced by a new one over the same store after every possible step; from then on eight queries, all collection versions and all index descriptions, and the outcome of every later operation must equal those of a node that ran the same history without restart'
+    p, res = gotest('^TestGovcC14Restart$', env, 900)
+    if res is None:
+        rp = f'{V}/replays/{prop}/bounded-harness.json'
+        os.makedirs(os.path.dirname(rp), exist_ok=True)
+        json.dump({'property': prop, 'obligation': 'bounded harness', 'reason': 'the restart harness no longer builds or runs against the current tree', 'output': (p.stdout + p.stderr)[-4000:]}, open(rp, 'w'), indent=1)
+        print(f'VIOLATION property={prop} replay={rp} no-failing-input-found')
+        sys.exit(1)
+    probs = res.get('problems') or []
+    summary.update({'bound': bound, 'cases': res['cases'], 'distinct_nontrivial': res['cases'], 'exhaustive': False, 'violating_histories': len({(q['history'], q['restart_after_step']) for q in probs})})
+    if probs:
+        rp = f'{V}/replays/{prop}/bounded-history-1.json'
+        os.makedirs(os.path.dirname(rp), exist_ok=True)
+        json.dump({'property': prop, 'obligation': 'bounded stand-in: restart', 'problems': probs[:10],
+                   'replay_cmd': "go test -overlay <harness overlay> -vet=off -run '^TestGovcC14Restart$' ./internal/db"}, open(rp, 'w'), indent=1)
+        lines.append(f'VIOLATION property={prop} replay={rp}')
+        violations.append(('restart', probs[:3]))
+
+if prop == 'C10':
+    import re
+    summary['function'] = 'planner.dagScanNode (commit-history queries) and fetcher.multiFetcher under permissionedFetcher (showDeleted), through the integration test driver with document access control (go test -overlay)'
+    p = gotest_pkg('^TestGovcC10_', './tests/integration/acp/dac/', {'/repo/tests/integration/acp/dac/zz_c10_commits_test.go': f'{V}/harness/acp/zz_c10_commits_test.go'}, 180)
+    out = p.stdout + p.stderr
+    passed = re.findall(r'--- PASS: (TestGovcC10_\w+)', out)
+    failed = re.findall(r'--- FAIL: (TestGovcC10_\w+)', out)
+    hung = re.findall(r'panic: test timed out', out)
+    bound = 'six fixed scenarios: a document private to identity 1, requests by identity 2 and by an anonymous requester: plain query, commits, commits by docID, latestCommits, showDeleted (must return the public documents and must return at all); the owner still sees its history'
+    summary.update({'bound': bound, 'cases': len(passed) + len(failed) + len(hung), 'distinct_nontrivial': len(passed) + len(failed) + len(hung), 'exhaustive': False, 'violating_histories': len(failed) + len(hung)})
+    if failed or hung or len(passed) < 6:
+        rp = f'{V}/replays/{prop}/bounded-history-1.json'
+        os.makedirs(os.path.dirname(rp), exist_ok=True)
+        json.dump({'property': prop, 'obligation': 'bounded stand-in: access-control scenarios', 'failed': failed, 'timed_out': bool(hung), 'passed': passed, 'output': out[-3000:],
+                   'replay_cmd': "go test -overlay <harness overlay> -vet=off -run '^TestGovcC10_' ./tests/integration/acp/dac/"}, open(rp, 'w'), indent=1)
+        if failed or hung:
+            lines.append(f'VIOLATION property={prop} replay={rp}')
+        else:
+            lines.append(f'VIOLATION property={prop} replay={rp} no-failing-input-found')
+        violations.append(('acp scenarios', failed))
 
 summary['wall_s'] = round(time.time() - t0, 1)
 json.dump(summary, open(f'{work}/{prop}.json', 'w'), indent=1)
